@@ -27,6 +27,7 @@ type HarnessSpec struct {
 	// "(*github.com/ava-labs/hypersdk/internal/pebble.Database).Get") to the name of a harness function in the harness
 	// package with the same parameter list (receiver first). Engine only: the native replay runs the real callee.
 	MapOrder  []string // substrings of map types whose iteration order is explored (a choice per range loop)
+	WordByteEq bool // INT mode: compare byte strings word-wise (engine/intmode_bytes_e.go) instead of by grouped decompositions
 	LenAsSum  bool // model math/bits.Len* as a sum of comparisons instead of an ite chain
 	Redirects map[string]string
 	smtlog    string
